@@ -55,12 +55,25 @@ func (l *Loader) LoadRaw(name string) (*RawConfig, error) {
 
 // Load loads a target configuration with inheritance resolved
 func (l *Loader) Load(name string) (*Config, error) {
+	return l.load(name, nil)
+}
+
+// load resolves name; visiting is the chain of configs currently being
+// resolved, used to report inheritance cycles instead of recursing forever
+func (l *Loader) load(name string, visiting []string) (*Config, error) {
+	for _, v := range visiting {
+		if v == name {
+			return nil, fmt.Errorf("inheritance cycle in target config: %s -> %s",
+				strings.Join(visiting, " -> "), name)
+		}
+	}
+
 	raw, err := l.LoadRaw(name)
 	if err != nil {
 		return nil, err
 	}
 
-	return l.resolveInheritance(raw)
+	return l.resolveInheritance(raw, append(visiting[:len(visiting):len(visiting)], name))
 }
 
 // LoadAll loads all target configurations in the targets directory
@@ -90,7 +103,7 @@ func (l *Loader) LoadAll() (map[string]*Config, error) {
 }
 
 // resolveInheritance resolves inheritance chain for a configuration
-func (l *Loader) resolveInheritance(raw *RawConfig) (*Config, error) {
+func (l *Loader) resolveInheritance(raw *RawConfig, visiting []string) (*Config, error) {
 	if !raw.HasInheritance() {
 		// No inheritance, return as-is
 		return &raw.Config, nil
@@ -101,7 +114,7 @@ func (l *Loader) resolveInheritance(raw *RawConfig) (*Config, error) {
 
 	// Apply inheritance in order
 	for _, parentName := range raw.GetInherits() {
-		parent, err := l.Load(parentName)
+		parent, err := l.load(parentName, visiting)
 		if err != nil {
 			return nil, fmt.Errorf("failed to load parent config %s: %w", parentName, err)
 		}
